@@ -2,7 +2,8 @@
 
 Every *block* (a fixed-size structure of the standards: a header, a descriptor, a mode page body, …)
 is encoded by the Lean oracle `Std.Block.enc` through the driver (`blkenc`); GET LBA STATUS,
-REPORT LUNS and PR IN READ KEYS responses come whole from Lean (`stdenc`, the encoders the C04
+REPORT LUNS, PR IN READ KEYS, REPORT PRIORITY, REPORT TARGET PORT GROUPS and MODE SENSE(6/10) responses
+come whole from Lean (`stdenc`, the encoders the C04
 theorems are stated about).  For the other structured formats this module concatenates Lean-encoded
 blocks and fills in the standards' length fields (n-3, n-7, byte counts) — that composition is part
 of the trusted harness (DESIGN.md section 8).
@@ -226,7 +227,9 @@ class Oracle:
         else:
             hv = {"ps": ps, "spf": 1, "page_code": pc, "sub_page_code": sub, "page_length": ln - 4}
             data = self.enc("mode_subpage_header", hv)
-        data += self.enc(blk, body_v)
+        body = self.enc(blk, body_v)
+        self.last_page = (0 if sub is None else 1, dict(hv), body)
+        data += body
         assert len(data) == ln
         e = {k: v for k, v in hv.items() if k != "page_length"}
         e.update(body_v)
@@ -247,7 +250,14 @@ class Oracle:
             hdr = self.enc("mode_header6", v)
             e = self.report("mode_header6", v, drop=("mode_data_length", "block_descriptor_length"))
         e["mode_pages"] = [pe]
-        return hdr + bd + page, e
+        # the whole response as the Lean oracle states it (Std.encModeSense6/10, the encoder of the C04 theorems)
+        sub, phv, body = self.last_page
+        txt = "{header={%s},bd=%s,page={sub=i%d,header={%s},body=%s}}" % (
+            ",".join("%s=i%d" % kv for kv in v.items()), hx(bd), sub, ",".join("%s=i%d" % kv for kv in phv.items()), hx(body))
+        whole = self.stdenc("modesense10" if ten else "modesense6", txt)
+        if whole != hdr + bd + page:
+            raise Infra("oracle inconsistency: Std.encModeSense differs from the block-wise composition")
+        return whole, e
 
     # ------------------------------------------------------------------ header + fixed-size items (whole response from Lean)
     def getlbastatus(self):
@@ -356,7 +366,15 @@ class Oracle:
             hv = self.vals("rtpg_ext_header", {"format_type": 1})
             e["implicit_transition_time"] = hv["implicit_transition_time"]
             body = self.enc("rtpg_ext_header", hv) + body
-        return len(body).to_bytes(4, "big") + body, e
+        # the whole response as the Lean oracle states it (Std.encRtpg / Std.encRtpgExt, the encoders of the C04 theorems)
+        gtxt = ",".join("{%s,ports=[%s]}" % (",".join("%s=i%d" % (k, x) for k, x in g.items() if k != "target_ports"),
+                                              ",".join("{relative_target_port_id=i%d}" % p["relative_target_port_id"] for p in g["target_ports"]))
+                        for g in groups)
+        txt = "{groups=[%s]%s}" % (gtxt, (",ext={format_type=i1,implicit_transition_time=i%d}" % hv["implicit_transition_time"]) if ext else "")
+        whole = self.stdenc("rtpg", txt)
+        if whole != len(body).to_bytes(4, "big") + body:
+            raise Infra("oracle inconsistency: Std.encRtpg differs from the block-wise composition")
+        return whole, e
 
     # ------------------------------------------------------------------ READ ELEMENT STATUS
     ELEMENT_BITS = {1: ("except", "full"), 2: ("except", "full", "access"), 4: ("except", "full", "access"),
@@ -406,7 +424,13 @@ class Oracle:
             v = self.vals("priority_descriptor", {"adlen": len(tid)})
             body += self.enc("priority_descriptor", v) + tid
             descs.append(dict(v, transport_id=tid))
-        return len(body).to_bytes(4, "big") + body, {"priority_descriptors": descs}
+        # the whole response as the Lean oracle states it (Std.encReportPriority, the encoder of the C04 theorem)
+        txt = "[" + ",".join("{%s,transport_id=%s}" % (",".join("%s=i%d" % (k, x) for k, x in d.items() if k != "transport_id"), hx(d["transport_id"]))
+                             for d in descs) + "]"
+        whole = self.stdenc("reportpriority", txt)
+        if whole != len(body).to_bytes(4, "big") + body:
+            raise Infra("oracle inconsistency: Std.encReportPriority differs from the block-wise composition")
+        return whole, {"priority_descriptors": descs}
 
     # ------------------------------------------------------------------ READ CD
     def readcd(self):
